@@ -7,7 +7,8 @@ gvars == <<vars, hist>>
 gview == vars
 ASSUME AllStuffOK
 GInit == Init /\ hist = <<>>
-Step(a, o) == IF a.a = "Send"
+Step(a, o) == IF a.a = "Mix" THEN [act |-> a, wire |-> Payload(a.it.pay, a.it.fmt, a.it.spalen).wire, out |-> o] ELSE
+              IF a.a = "Send"
               THEN LET pl == Payload(a.it.pay, a.it.fmt, a.it.spalen)
                    IN [act |-> a, wire |-> pl.wire, out |-> [i \in 1..Len(o) |-> [lost |-> o[i].lost, dep |-> o[i].dep, bytes |-> Delivered(a.it)]]]
               ELSE [act |-> a, wire |-> <<>>, out |-> o]
